@@ -158,6 +158,31 @@ def rule_e(R, ctx):
     R.ob("C13.e", fn, "both-on-every-ok-path", both, "write_blocks_to and snapshot.delete_set.encode dominate every Ok return: %s" % both)
 
 
+def rule_k(R, ctx, rid="C13.k"):
+    from .accessors import _canon
+    Y = ctx.yrs
+    R.rule(rid, "R-PROV a destroyed sub-document is replaced by an unloaded instance with the SAME options: in Doc::destroy the options "
+                "handed to Doc::subdoc are a clone of the old instance's whole Options value (DocStore::options of the content being "
+                "replaced) and the only field written afterwards is should_load — options rebuilt field by field lose whatever the "
+                "builder does not mention (collection_id, skip_gc, offset_kind), and a tombstoned sub-document item is encoded with "
+                "its current options whenever an older snapshot is restored")
+    fn = Y.fn("yrs::doc::Doc::destroy")
+    v = FnView(fn)
+    sub = fn.calls_to("yrs::doc::Doc::subdoc")
+    R.floor(rid, "Doc::subdoc in Doc::destroy", len(sub), 1)
+    for cs, site in ordinal_sites(sub):
+        a = simp_deep(v.arg(cs, 1, 14))
+        whole = a[0] == "call" and F.strip_generics(a[1]).endswith("DocStore::options") and term_has_field(a, "ItemContent::Doc.1")
+        R.ob(rid, fn, site + ":options", whole, "options = %s" % _canon(v.arg(cs, 1, 14)) if whole else
+             "the new instance's options are %s — not the whole Options value of the instance being replaced" % sshow(a), cs.loc())
+    writes = set()
+    for i, j, st in fn.stmts():
+        d = st["dst"]
+        if isinstance(d, dict) and d.get("p") and isinstance(d["p"][-1], str) and "doc::Options." in d["p"][-1]:
+            writes.add(d["p"][-1].rsplit(".", 1)[-1])
+    R.ob(rid, fn, "fields-overwritten", writes == {"should_load"}, "fields of the copied options written afterwards: %s" % sorted(writes))
+
+
 def check(ctx, R):
     from . import wire_rules
     R.run("C13.a", rule_a, ctx)
@@ -183,4 +208,5 @@ def check(ctx, R):
     R.run("C13.i", lambda R, c: _c05.rule_e(R, c, "C13.i"), ctx)
     from . import shared as _sh
     R.run("C13.j", lambda R, c: _sh.encoder_sinks(R, c, "C13.j"), ctx)
+    R.run("C13.k", rule_k, ctx)
     return {}
